@@ -1,31 +1,102 @@
 (* C01 -- Acknowledged appends survive any crash.
-   INTERIM file: the full statement is `crash_refinement_stmt` of Wal/Hist.v
-   (all histories of calls, power losses at any I/O boundary with any adversary
-   choice, nested crashes inside recovery, reopen cycles; see its comment for how
-   it covers C01).  Its proof is in progress; until it lands only the fragments
-   below are proved and the property is otherwise carried by the executable
-   acceptance predicate `hist_run`/`hs_ok` (evaluated on random histories of
-   the model on every run) and by the crash-image enumeration on the
-   implementation (stream `crash`). *)
-From RW Require Import Base.Bytes Fmt.Codec Fmt.Frame Wal.Model Wal.Spec Wal.Hist Wal.BasicFacts.
+   Only statements here.  Model: Wal/Model.v (abstract disk, crash adversary, every
+   WAL call and Open as sequences of I/O actions), Wal/Spec.v (contiguous-log spec),
+   Wal/Hist.v (histories with crashes and the ghost ledger).  Invariants:
+   Wal/CrashInv.v; proofs: Wal/CrashFacts*.v, Wal/CrashCalls*.v, Wal/CrashGlue.v,
+   Wal/CrashThm.v.
+
+   A history is a list of steps
+     HOp o            a call running to completion
+     HCrashIn o j cc  power loss after the first j I/O actions of call o (including the
+                      background rotation it waits for; j >= all = right after it) with
+                      adversary choice cc (which non-durable files survive, which
+                      written-but-unsynced batches reached the disk completely; a torn
+                      batch is recovered as absent -- the segment-level law of C02)
+     HOpen            Open after a crash
+     HCrashInOpen j cc  power loss after j actions of that Open (nests to any depth).
+   Guards: cfg_ok (codec id accepted by Open, 0 < segment size < 2^30), hstep_wf
+   (entries a Go program can hold with index in [1, 2^64-2], a batch below 1 GiB),
+   short_enough (fewer than 2^62 steps: the 64-bit segment id counter cannot wrap).
+   Every crash point of every call and of recovery is covered BY PROOF. *)
+From RW Require Import Base.Bytes Fmt.Codec Fmt.Frame Wal.Model Wal.Spec Wal.Hist
+  Wal.CrashInv Wal.CrashCalls10 Wal.CrashThm Wal.CrashExamples Wal.CrashExamplesFacts.
 Open Scope N_scope.
 
-(* the full statement (not yet a theorem) *)
-Definition C01_full_statement : Prop := crash_refinement_stmt.
+(* the master theorem (statement in Wal/Hist.v) *)
+Theorem C01_crash_refinement : crash_refinement_stmt.
+Proof. exact crash_refinement. Qed.
+Print Assumptions C01_crash_refinement.
 
-(* proved fragment: whatever the adversary chooses, a file whose directory entry is
-   durable survives a power loss with all its synced entries, and the batch written
-   since the last fsync is kept whole or dropped whole (the latter is the segment-level
-   law of Seg/RecoverFacts.v lifted to the abstract disk) *)
-Theorem C01_synced_entries_survive_partial :
-  forall c n f, df_dir f = true ->
-  exists f', crash_file c (n, f) = [(n, f')] /\ df_pend f' = None /\ df_dir f' = true /\
-             (df_ents f' = df_ents f \/
-              exists b, df_pend f = Some b /\ df_ents f' = df_ents f ++ pb_ents b /\ df_end f' = pb_end b).
-Proof. exact crash_file_durable. Qed.
-Print Assumptions C01_synced_entries_survive_partial.
+(* Once StoreLogs(ls) has returned nil (ROk) in ANY reachable state, then after ANY
+   continuation `post` of calls, crashes at any point (of appends, rotations,
+   truncations, recoveries) and reopens in which no DeleteRange(mn,mx) with
+   mn <= index <= mx is issued (completed or interrupted):
+     - if the WAL is up, GetLog(index) returns that entry, identical in every field,
+       and FirstIndex <= index <= LastIndex;
+     - if the machine is down, Open succeeds (and then the first case applies to the
+       history extended by HOpen). *)
+Theorem C01_acked_entry_survives :
+  forall c pre ls post s k l,
+    (cfg_ok c /\ Forall hstep_wf (pre ++ HOp (OStore ls) :: post) /\ short_enough (pre ++ HOp (OStore ls) :: post)) ->
+    hs_mode (hist_run c hist_init pre) = Up s ->
+    fst (step_model c s (OStore ls)) = ROk ->
+    nth_error ls k = Some l ->
+    Forall (fun st => ~ touches (l_index l) st) post ->
+    match hs_mode (hist_run c hist_init (pre ++ HOp (OStore ls) :: post)) with
+    | Up s' => fst (get_log (ss_wal s') (l_index l) (ss_env s')) = RLog l /\
+               exists fi la, first_index_op (ss_wal s') = RVal fi /\ last_index_op (ss_wal s') = RVal la /\
+                             fi <= l_index l /\ l_index l <= la
+    | Down d => exists w e, open_wal c (env_of d) = (OOk w, e)
+    end.
+Proof. exact acked_entry_survives. Qed.
+Print Assumptions C01_acked_entry_survives.
 
-Theorem C01_metadata_survives_partial :
-  forall c d, dk_meta (crash_disk c d) = dk_meta d /\ dk_stable (crash_disk c d) = dk_stable d.
-Proof. exact crash_disk_meta. Qed.
-Print Assumptions C01_metadata_survives_partial.
+(* after any history ending in a crash, Open succeeds and the recovered log and stable
+   store are EXACTLY the acknowledged state or the state the interrupted call would have
+   produced; the directory then holds exactly the listed files; no create failed *)
+Theorem C01_recovery_yields_acked_or_inflight :
+  forall c steps d,
+    (cfg_ok c /\ Forall hstep_wf steps /\ short_enough steps) ->
+    hs_mode (hist_run c hist_init steps) = Down d ->
+    exists w e, open_wal c (env_of d) = (OOk w, e) /\
+      ({| sp_log := abs w (e_disk e); sp_kv := dk_stable (e_disk e) |} = hs_acked (hist_run c hist_init steps) \/
+       {| sp_log := abs w (e_disk e); sp_kv := dk_stable (e_disk e) |} = hs_may (hist_run c hist_init steps)) /\
+      dir_exact (e_disk e) = true /\ Forall not_fail (e_acts e).
+Proof. exact recovery_after_any_history. Qed.
+Print Assumptions C01_recovery_yields_acked_or_inflight.
+
+(* a running WAL reads exactly the ledger: GetLog, FirstIndex, LastIndex, stable Get *)
+Theorem C01_live_state_is_ledger :
+  forall c steps s,
+    (cfg_ok c /\ Forall hstep_wf steps /\ short_enough steps) ->
+    hs_mode (hist_run c hist_init steps) = Up s ->
+    let a := hs_acked (hist_run c hist_init steps) in
+    hs_may (hist_run c hist_init steps) = a /\
+    {| sp_log := abs (ss_wal s) (e_disk (ss_env s)); sp_kv := dk_stable (e_disk (ss_env s)) |} = a /\
+    (forall i, fst (get_log (ss_wal s) i (ss_env s)) =
+               match spec_get (sp_log a) i with Some l => RLog l | None => RErrNotFound end) /\
+    first_index_op (ss_wal s) = RVal (spec_first (sp_log a)) /\
+    last_index_op (ss_wal s) = RVal (spec_last (sp_log a)) /\
+    (forall k, fst (get_stable (ss_wal s) k (ss_env s)) = RBytes (kv_get k (sp_kv a))) /\
+    Forall not_fail (e_acts (ss_env s)).
+Proof. exact live_state_is_ledger. Qed.
+Print Assumptions C01_live_state_is_ledger.
+
+(* ---- non-vacuity ---------------------------------------------------------------
+   segment size 128: the 2nd append seals segment 1.
+   A: power loss between the sealing append and the rotation's metadata commit: the
+      crash image lists segment 1 as unsealed while its file is sealed; Open completes
+      the rotation; entries 1..2 survive, 3 is appended afterwards.
+   C: a 2-entry batch written but not fsynced: kept whole (LastIndex 4) or lost whole
+      (LastIndex 2), by the adversary's choice. *)
+Example C01_ex_guards : hist_ok cfg128 hist_rotation_before_commit /\ hist_ok cfg128 hist_batch_kept.
+Proof. exact (conj hist_rotation_before_commit_ok hist_batch_kept_ok). Qed.
+Example C01_ex_rotation_before_commit :
+  final_ok cfg128 hist_rotation_before_commit = true /\
+  crash_shape cfg128 (firstn 4 hist_rotation_before_commit) = ([(1, false)], [((1, 0), true)]) /\
+  final_last cfg128 hist_rotation_before_commit = 3 /\ final_first cfg128 hist_rotation_before_commit = 1.
+Proof. vm_compute. repeat split; reflexivity. Qed.
+Example C01_ex_batch_in_flight :
+  final_ok cfg128 hist_batch_kept = true /\ final_last cfg128 hist_batch_kept = 4 /\
+  final_ok cfg128 hist_batch_lost = true /\ final_last cfg128 hist_batch_lost = 2.
+Proof. vm_compute. repeat split; reflexivity. Qed.
